@@ -20,7 +20,7 @@ from engines.dimwise_sim import EPS, Monitor
 class UQSim(DS.DimwiseSim):
     strategy = "dimension_wise_uq"
 
-    def build(self):
+    def build(self, reference=None):
         from sparseSpACE.spatiallyAdaptiveSingleDimension2 import SpatiallyAdaptiveSingleDimensions2
         from sparseSpACE.GridOperation import UncertaintyQuantification
         from sparseSpACE.Grid import GlobalTrapezoidalGridWeighted
@@ -39,10 +39,17 @@ class UQSim(DS.DimwiseSim):
         grid = GlobalTrapezoidalGridWeighted(a, b, self.op, boundary=c["boundary"])
         self.op.set_grid(grid)
         self.op.set_expectation_variance_Function()
-        self.sa = SpatiallyAdaptiveSingleDimensions2(a, b, operation=self.op, norm=2, use_volume_weighting=c["volume_weighting"],
+        if reference is not None:
+            self.op.set_reference_solution(np.array(reference, dtype=float))
+        norm = 2 if "norm" not in c else (np.inf if c["norm"] == "inf" else c["norm"])
+        self.sa = SpatiallyAdaptiveSingleDimensions2(a, b, operation=self.op, norm=norm, use_volume_weighting=c["volume_weighting"],
                                                      grid_surplusses=self.op.get_grid(), margin=c["margin"], rebalancing=c["rebalancing"],
                                                      version=c["version"], print_level=100, log_level=100)
-        self.err = SimErrorCalculator(self.rk, p_zero=c["p_zero"], p_tie=c["p_tie"], mode="mix", use_epoch=c.get("use_epoch", True))
+        if c.get("estimator") == "real":
+            from sparseSpACE.ErrorCalculator import ErrorCalculatorSingleDimVolumeGuided
+            self.err = ErrorCalculatorSingleDimVolumeGuided()
+        else:
+            self.err = SimErrorCalculator(self.rk, p_zero=c["p_zero"], p_tie=c["p_tie"], mode="mix", use_epoch=c.get("use_epoch", True))
         return self
 
     def too_big(self):
@@ -128,6 +135,15 @@ class UQMonitor(Monitor):
         if any(abs(float(x) - y) > 1e-8 * sc for x, y in zip(list(E3) + list(Var3), E + Var)):
             ctx.violate("moments_two_paths_agree", self.sig(sim), "nodes-and-weights path gives E=%s Var=%s, combined-moments path E=%s Var=%s" % (
                 [float(x) for x in E3], [float(x) for x in Var3], E, Var), taint="moments")
+            return
+        # the single-moment queries are further public routes to the same numbers
+        m1q = E[:3]     # (calculate_expectation with the combined solution belongs to runs whose integrand is a single moment function)
+        m1n = [float(x) for x in np.asarray(sim.op.calculate_moment(sim.sa, k=1, use_combiinstance_solution=False)).ravel()[:3]]
+        m2n = [float(x) for x in np.asarray(sim.op.calculate_moment(sim.sa, k=2, use_combiinstance_solution=False)).ravel()[:3]]
+        if any(abs(x - y) > 1e-8 * sc for x, y in zip(m1q, E)) or any(abs(x - y) > 1e-8 * sc for x, y in zip(m1n, E)) or \
+                any(abs((x - e * e) - v) > 1e-8 * sc * sc and abs(abs(x - e * e) - v) > 1e-8 * sc * sc for x, e, v in zip(m2n, E, Var)):
+            ctx.violate("moments_two_paths_agree", self.sig(sim, route="single_moment_queries"), "calculate_expectation %s, first / second moments from nodes and weights %s / %s, "
+                        "expectation and variance %s / %s" % (m1q, m1n, m2n, E, Var), taint="moments")
             return
         cc, ee, const = c["c"], c["e"], c["const"]
         scale = 1.0 + abs(cc) * 2 + abs(ee) + abs(const)
